@@ -267,19 +267,25 @@ let run_ops file =
   let ic = open_in file in
   let w = ref world0 in
   let watch = Sys.getenv_opt "VERIF_FEATURES" <> None in
+  let inside = ref true in     (* is every call so far inside the domain of the world-level refinement theorem (World_refine.ops_okb)? *)
   (try
      while true do
        let line = String.trim (input_line ic) in
        if line <> "" && line.[0] <> '#' then begin
          (match parse line with
-          | Op o -> let (w', r) = step !w o in (if watch then (try observe !w w' o with _ -> ())); w := w'; print_endline (print_out FIter r)
-          | Flavoured (o, f) -> let (w', r) = step !w o in w := w'; print_endline (print_out f r)
+          | Op o ->
+            (if watch && !inside && not (op_okb !w o && api_op o) then begin inside := false; feat ("theorem_domain:first_call_outside_" ^ List.hd (String.split_on_char ' ' line)) end);
+            let (w', r) = step !w o in (if watch then (try observe !w w' o with _ -> ())); w := w'; print_endline (print_out FIter r)
+          | Flavoured (o, f) ->
+            (if watch && !inside && not (op_okb !w o && api_op o) then inside := false);
+            let (w', r) = step !w o in w := w'; print_endline (print_out f r)
           | Skip name -> print_endline ("skip:" ^ name));
          Stdlib.flush stdout
        end
      done
    with End_of_file -> ());
   close_in ic;
+  if watch then feat (if !inside then "theorem_domain:history_inside_world_run_refines" else "theorem_domain:history_outside");
   match Sys.getenv_opt "VERIF_FEATURES" with
   | Some path ->
     let oc = open_out path in
